@@ -193,7 +193,7 @@ theorem dropTail_view (slack : Nat → Nat) (s1 : Pkg) (hI : Inv slack s1) (hS :
     (∀ x ∈ s1.tables, x.name ≠ Gen.nameColumns.toList → x.name ≠ Gen.nameTables.toList →
       x.name ≠ Gen.nameValidation.toList → tableView s5 x = tableView s1 x) := by
   unfold dropTail at h
-  generalize hr2 : deleteRows s1 Gen.nameValidation.toList (eqStr "Table" name) = r2 at h
+  generalize hr2 : deleteValidation s1 name = r2 at h
   obtain ⟨s2, res2⟩ := r2
   cases res2 with
   | err k => cases (Prod.mk.inj h).2
@@ -201,7 +201,16 @@ theorem dropTail_view (slack : Nat → Nat) (s1 : Pkg) (hI : Inv slack s1) (hS :
   | ok u =>
   cases u
   simp only at h
-  obtain ⟨hI2, hS2, hV2, ht2, -, ho2⟩ := deleteRows_frame slack s1 hI hS hV _ _ s2 hr2
+  have hfr : Inv slack s2 ∧ SortedAll s2 ∧ ValidAll s2 ∧ s2.tables = s1.tables ∧
+      (∀ x ∈ s1.tables, x.name ≠ Gen.nameValidation.toList → tableView s2 x = tableView s1 x) := by
+    rcases MsiProofs.DeleteValidation.deleteValidation_cases s1 name with e | e
+    · rw [e] at hr2
+      have := deleteRows_frame slack s1 hI hS hV _ _ s2 hr2
+      exact ⟨this.1, this.2.1, this.2.2.1, this.2.2.2.1, this.2.2.2.2.2⟩
+    · rw [e] at hr2
+      cases hr2
+      exact ⟨hI, hS, hV, rfl, fun _ _ _ => rfl⟩
+  obtain ⟨hI2, hS2, hV2, ht2, ho2⟩ := hfr
   generalize hr3 : deleteRows s2 Gen.nameColumns.toList (eqStr "Table" name) = r3 at h
   obtain ⟨s3, res3⟩ := r3
   cases res3 with
